@@ -47,6 +47,19 @@ CLASSES = {
     'tight-list-made-loose-by-blank-before-next-list':
         'ListItem.read keeps the trailing blank line in the item when the next line is a marker '
         'of another list type; 5.3: a list is loose only if blank lines separate items/children',
+    'table-row-excess-cells-rendered':
+        'TableRow renders every cell of a body row; GFM tables: "The remainder of the table\'s '
+        'rows may vary in the number of cells. [...] If greater, the excess is ignored" '
+        '("|a|\n|-|\n|b|c|" has one <td>)',
+    'table-empty-cell-without-padding-dropped':
+        'TableRow.__init__ drops the empty strings of the split row (filter(None, ...)), so an '
+        'empty cell written without a space disappears and the later cells shift left; GFM '
+        'tables: cells are what the pipes separate, spaces around the content are optional '
+        '("|a|b|c|\n|-|-|-|\n|d||e|" has the cells d, "", e)',
+    'table-row-without-pipe-ends-table':
+        'Table.read takes only following lines that contain "|"; GFM tables (example 202): the '
+        'table is broken at the first empty line or the beginning of another block-level '
+        'structure, so a plain line is a row of one cell ("|a|b|\n|-|-|\n|c|d|\nbar")',
 }
 
 
@@ -92,6 +105,15 @@ def _features(tree):
                 f.add('fence-closed-by-line-with-info')
             if b.kind == 'table' and not b.rows:
                 f.add('table-without-rows-renders-empty-tbody')
+            if b.kind == 'table':
+                # row spellings of the directed trees of b03 (docs_write.Writer.table)
+                if any(getattr(r, 'extra', None) for r in b.rows):
+                    f.add('table-row-excess-cells-rendered')
+                if any(getattr(r, 'bare', False) and any(not c.inl for c in r.cells[:-1])
+                       for r in b.rows):
+                    f.add('table-empty-cell-without-padding-dropped')
+                if any(getattr(r, 'nopipe', False) for r in b.rows):
+                    f.add('table-row-without-pipe-ends-table')
             for x, y in zip(inl, inl[1:]):
                 if x.kind == 'esc' and x.ch == '\\' and y.kind in ('soft', 'hard'):
                     f.add('hard-break-after-escaped-backslash')
